@@ -3,8 +3,9 @@
 import os
 import sys
 
-if os.environ.get("PYTHONHASHSEED") != "0":
-    os.environ["PYTHONHASHSEED"] = "0"
+_HS = os.environ.get("VERIF_HASHSEED", "0")      # the determinism self-test runs the checks under other hash seeds
+if os.environ.get("PYTHONHASHSEED") != _HS:
+    os.environ["PYTHONHASHSEED"] = _HS
     os.execv(sys.executable, [sys.executable] + sys.argv)
 
 sys.path.insert(0, os.path.dirname(os.path.abspath(__file__)))
